@@ -324,6 +324,35 @@ func checkDirectoryOnce(dir string, mods []modVer, st *stats, hashFirst bool) st
 			atomic.AddInt64(&st.notFound, 1)
 		}
 	}
+	// spellings the escaping rules forbid: a raw upper-case letter, a dangling or
+	// doubled escape mark, in the path and in the version
+	var rawURLs []string
+	for _, m := range mods {
+		ep, _ := module.EscapePath(m.Path)
+		ev, _ := module.EscapeVersion(m.Vers)
+		for _, ext := range []string{"info", "mod", "zip"} {
+			rawURLs = append(rawURLs,
+				"/mod/"+strings.ToUpper(ep[:1])+ep[1:]+"/@v/"+ev+"."+ext,
+				"/mod/"+ep+"!/@v/"+ev+"."+ext,
+				"/mod/"+ep+"/!!x/@v/"+ev+"."+ext,
+				"/mod/"+ep+"/@v/"+strings.ToUpper(ev)+"."+ext,
+				"/mod/"+ep+"/@v/"+ev+"!."+ext,
+			)
+		}
+		rawURLs = append(rawURLs, "/mod/"+strings.ToUpper(ep[:1])+ep[1:]+"/@v/list", "/mod/"+ep+"!/@v/list", "/mod/"+ep+"/@v/"+ev)
+	}
+	for _, url := range rawURLs {
+		r, v := do(url)
+		if v != "" {
+			return v
+		}
+		if r.Status != 404 {
+			return fmt.Sprintf("GET %s = %d %q, but nothing of that name is stored (want 404)", url, r.Status, head(r.Body))
+		}
+		if st != nil {
+			atomic.AddInt64(&st.notFound, 1)
+		}
+	}
 	for _, url := range []string{"/mod/", "/other/a.com/m/@v/list", "/mod/a.com/m/v1.0.0.info", "/mod/a.com/m/@v/"} {
 		r, v := do(url)
 		if v != "" {
@@ -400,7 +429,7 @@ func (in *instance) body() {
 	vsync.ResetNames()
 	srv, err := goproxytest.NewUnstartedVerif(in.dir, func(string, ...any) {})
 	if err != nil {
-		kit.Harness("server: %v", err)
+		kit.UnderTestFailed("a server over the standard directory does not start: %v", err)
 	}
 	in.srv = srv
 	h := srv.HandlerVerif()
@@ -441,19 +470,30 @@ func (in *instance) judge(e *sched.Exec) (string, string) {
 }
 
 func soloResponses(dir string, sc scenario) []response {
+	out, v := soloResponsesV(dir, sc)
+	if v != "" {
+		kit.UnderTestFailed("%s", v)
+	}
+	return out
+}
+
+// soloResponsesV: every request of the scenario issued alone on a fresh server.
+// A server that does not start over the standard directory, or a request that
+// panics, is returned as a violation text.
+func soloResponsesV(dir string, sc scenario) ([]response, string) {
 	var out []response
 	for _, rq := range sc.Reqs {
 		srv, err := goproxytest.NewUnstartedVerif(dir, func(string, ...any) {})
-		if err != nil {
-			kit.Harness("server: %v", err)
+		if err != nil || srv == nil {
+			return nil, fmt.Sprintf("server does not start: %v", err)
 		}
 		r, pan := get(srv.HandlerVerif(), rq.String())
 		if pan != nil {
-			kit.Harness("solo request %s panics: %v", rq, pan)
+			return nil, fmt.Sprintf("GET %s panics: %v", rq, pan)
 		}
 		out = append(out, r)
 	}
-	return out
+	return out, ""
 }
 
 type kase struct {
@@ -475,7 +515,14 @@ type shardResult struct {
 
 func exploreConc(r *kit.Run, dir string, sc scenario) shardResult {
 	var res shardResult
-	in := &instance{sc: sc, dir: dir, solo: soloResponses(dir, sc)}
+	solo, sv := soloResponsesV(dir, sc)
+	if sv != "" {
+		// nothing can be explored; the plain directory check reports and replays it
+		res.Violations = append(res.Violations, kit.V{Key: "solo-request scenario=" + sc.Name, What: fmt.Sprintf("directory %v, requests of scenario %s issued alone: %s", concMods, sc.Name, sv), Case: kase{Kind: "solo", Scenario: &sc}})
+		res.Capped = true
+		return res
+	}
+	in := &instance{sc: sc, dir: dir, solo: solo}
 	x := &sched.Explorer{Body: func() { in.body() }, Bound: sc.Bound, Horizon: 5000, Stop: r.Expired}
 	if sc.Bound < 0 {
 		x.Memo = sched.NewMemo()
@@ -567,6 +614,15 @@ func main() {
 		var c kase
 		if err := json.Unmarshal(raw, &c); err != nil {
 			kit.Harness("bad case: %v", err)
+		}
+		if c.Kind == "solo" {
+			schedMu.Lock()
+			defer schedMu.Unlock()
+			writeDir(concDir, concMods)
+			if _, sv := soloResponsesV(concDir, *c.Scenario); sv != "" {
+				return []kit.V{{Key: "solo-request scenario=" + c.Scenario.Name, What: sv, Case: c}}
+			}
+			return nil
 		}
 		if c.Kind == "real" {
 			if v, _ := checkReal(filepath.Join(root, fmt.Sprintf("realreplay%d", atomic.AddInt64(&rseq, 1))), c.Mods); v != "" {
